@@ -491,7 +491,8 @@ theorem deliver_ok (cfg : Cfg) {B} (hB : Tag cfg B) {fwd : Fwd} (hf : FwdOK B fw
 
 theorem countMsg_pres (cfg : Cfg) (s : State) (t : Int) : Pres s (countMsg cfg s t) := by
   unfold countMsg; split
-  · exact Pres.refl s
+  · exact ⟨rfl, rfl, fun _ _ => rfl, fun _ h => h, fun _ m h => ⟨m, h, rfl, id⟩, fun _ _ h => h, fun _ h => h, ⟨[], by simp⟩,
+      List.Sublist.refl _, rfl⟩
   · exact ⟨rfl, rfl, fun _ _ => rfl, fun _ h => h, fun _ m h => ⟨m, h, rfl, id⟩, fun _ _ h => h, fun _ h => h, ⟨[], by simp⟩,
       List.Sublist.refl _, rfl⟩
 
